@@ -15,7 +15,6 @@ use scpi_contrib::{
     ieee488_stb, ieee488_tst, ieee488_wai, scpi_status, scpi_system,
 };
 use scpi::error::ErrorQueue;
-use std::collections::VecDeque;
 
 pub struct Dev {
     pub esr: u8,
@@ -23,7 +22,7 @@ pub struct Dev {
     pub sre: u8,
     pub operation: EventRegister,
     pub questionable: EventRegister,
-    pub errors: VecDeque<Error>,
+    pub errors: scpi::error::VecErrorQueue,   // the library's own alloc queue
     pub tst: Option<Error>,
     pub hook_calls: usize,
 }
@@ -31,7 +30,7 @@ pub struct Dev {
 impl Dev {
     pub fn new() -> Self {
         Dev { esr: 0, ese: 0, sre: 0, operation: EventRegister::default(), questionable: EventRegister::default(),
-              errors: VecDeque::new(), tst: None, hook_calls: 0 }
+              errors: Vec::new(), tst: None, hook_calls: 0 }
     }
 }
 
@@ -65,10 +64,10 @@ impl GetEventRegister<Questionable> for Dev {
     fn register_mut(&mut self) -> &mut EventRegister { &mut self.questionable }
 }
 impl ErrorQueue for Dev {
-    fn push_back_error(&mut self, err: Error) { self.errors.push_back(err); }
-    fn pop_front_error(&mut self) -> Option<Error> { self.errors.pop_front() }
-    fn num_errors(&self) -> usize { self.errors.len() }
-    fn clear_errors(&mut self) { self.errors.clear() }
+    fn push_back_error(&mut self, err: Error) { self.errors.push_back_error(err); }
+    fn pop_front_error(&mut self) -> Option<Error> { self.errors.pop_front_error() }
+    fn num_errors(&self) -> usize { self.errors.num_errors() }
+    fn clear_errors(&mut self) { self.errors.clear_errors() }
 }
 impl ScpiDevice for Dev {}
 
